@@ -443,6 +443,11 @@ impl<'src, D> Recipe<'src, D> {
       command.args(positional);
     }
 
+    if config.verbosity.quiet() {
+      command.stderr(Stdio::null());
+      command.stdout(Stdio::null());
+    }
+
     command.export(
       &context.module.settings,
       context.dotenv,
